@@ -77,6 +77,8 @@ structure PensOk (st : St) : Prop where
   rc : ∀ (k : Nat) (p : Obj), st.pens[k]? = some p →
     (p.freed = false → p.refcount = (p.appRefs : Int) + (holders st k : Int)) ∧ (p.freed = true → holders st k = 0)
   ex : ∀ (k : Nat), st.pens[k]? = none → holders st k = 0
+  /-- a live pen holds at least one reference (it is freed when the count reaches zero) -/
+  pos : ∀ (k : Nat) (p : Obj), st.pens[k]? = some p → p.freed = false → 1 ≤ p.refcount
 
 /-- The state invariant, generalised to the middle of `tickit_window_unref`: the windows in `pending` have been
     freed by the tree cascade but what they own (pen, terminal reference) has not been released yet. -/
@@ -130,7 +132,7 @@ theorem release_pen {st : St} (P : PensOk st) {i : Nat} (hi : i < st.wx.size) :
   unfold dropWinPen
   cases hpen : (getX st i).pen with
   | null =>
-    refine ⟨st, rfl, rfl, rfl, rfl, rfl, rfl, ?_, ?_⟩
+    refine ⟨st, rfl, rfl, rfl, rfl, rfl, rfl, ?_, ?_, P.pos⟩
     · intro k p hp
       have := holders_forget hi k
       simp only [hpen, show (PenRef.null = PenRef.app k) = False by simp, if_false, Nat.add_zero] at this
@@ -140,7 +142,7 @@ theorem release_pen {st : St} (P : PensOk st) {i : Nat} (hi : i < st.wx.size) :
       simp only [hpen, show (PenRef.null = PenRef.app k) = False by simp, if_false, Nat.add_zero] at this
       rw [this]; exact P.ex k hk
   | own =>
-    refine ⟨st, rfl, rfl, rfl, rfl, rfl, rfl, ?_, ?_⟩
+    refine ⟨st, rfl, rfl, rfl, rfl, rfl, rfl, ?_, ?_, P.pos⟩
     · intro k p hp
       have := holders_forget hi k
       simp only [hpen, show (PenRef.own = PenRef.app k) = False by simp, if_false, Nat.add_zero] at this
@@ -169,7 +171,19 @@ theorem release_pen {st : St} (P : PensOk st) {i : Nat} (hi : i < st.wx.size) :
       simp only [hpk, hf, Bool.false_eq_true, if_false]
       have hge : ¬ p0.refcount < 1 := by omega
       simp only [hge, if_false, pure_ok]
-      refine ⟨_, rfl, rfl, rfl, rfl, rfl, rfl, ?_, ?_⟩
+      refine ⟨_, rfl, rfl, rfl, rfl, rfl, rfl, ?_, ?_, ?_⟩
+      rotate_left 2
+      · intro k p hp hfp
+        simp only [setX_pens, Array.getElem?_setIfInBounds] at hp
+        by_cases hkk : k0 = k
+        · subst hkk
+          simp only [if_true, hk0, Option.some.injEq] at hp
+          subst hp
+          simp only [dropped_freed, decide_eq_false_iff_not] at hfp
+          simp only [dropped_refcount]
+          omega
+        · simp only [hkk, if_false] at hp
+          exact P.pos k p hp hfp
       · intro k p hp
         have hh := holders_forget hi k
         rw [hpen] at hh
@@ -251,7 +265,7 @@ theorem SInvG.of_wx {st st' : St} {pend : List Nat} (inv : SInvG st pend) (ht : 
     have := congrArg List.length hm
     simpa using this
   refine ⟨by rw [ht]; exact inv.tinv, by rw [hlen, ht]; exact inv.wx_size, by rw [ht]; exact inv.rc, inv.pend_nodup,
-    by rw [ht]; exact inv.pend_freed, ?_, ⟨?_, ?_⟩, ?_, ?_, ?_, by rw [hrb]; exact inv.rb_rc⟩
+    by rw [ht]; exact inv.pend_freed, ?_, ⟨?_, ?_, by rw [hp]; exact inv.pens.pos⟩, ?_, ?_, ?_, by rw [hrb]; exact inv.rb_rc⟩
   · intro i w hw hf hi; rw [hg]; rw [ht] at hw; exact inv.dead_pen i w hw hf hi
   · intro k p hk; rw [hh]; rw [hp] at hk; exact inv.pens.rc k p hk
   · intro k hk; rw [hh]; rw [hp] at hk; exact inv.pens.ex k hk
@@ -416,7 +430,7 @@ theorem releaseWin_ok {st : St} {d : Nat} {rest : List Nat} (inv : SInvG st (d :
         have := P3.rc k p (by simpa [setX] using hk)
         simpa [holders, setX] using this, fun k hk => by
         have := P3.ex k (by simpa [setX] using hk)
-        simpa [holders, setX] using this⟩
+        simpa [holders, setX] using this, fun k p hk hf => P3.pos k p (by simpa [setX] using hk) hf⟩
     · intro _ h
       exact absurd (by simpa [setX, ht2] using h) hnoroot
     · intro hf _
@@ -578,7 +592,7 @@ theorem unrefW_ok {cfg : Cfg} (R : Repaired cfg) {st : St} (inv : SInv st) {x : 
               · subst hix; exact ⟨_, hl0⟩
               · exact ⟨w0, by rw [set_get_ne _ (Ne.symm hix)]; exact h0, hf0⟩
           exact inv.dead_pen i w0 h0 hf0 (by simp)
-      · exact ⟨inv.pens.rc, inv.pens.ex⟩
+      · exact ⟨inv.pens.rc, inv.pens.ex, inv.pens.pos⟩
       · intro hf h
         exact inv.term_held hf (.inl (hroot.1 h))
       · intro hf h
@@ -590,7 +604,7 @@ theorem unrefW_ok {cfg : Cfg} (R : Repaired cfg) {st : St} (inv : SInv st) {x : 
         exact inv.term_dead hf (.inl (hroot.1 h))
     · simp only [hz, if_false, pure_ok]
       refine ⟨_, [], [], rfl, inv0, by simp only [set_size]; exact inv.wx_size, ?_, List.nodup_nil, by intro i hi; simp at hi, ?_,
-        ⟨inv.pens.rc, inv.pens.ex⟩, ?_, ?_, ?_, inv.rb_rc⟩
+        ⟨inv.pens.rc, inv.pens.ex, inv.pens.pos⟩, ?_, ?_, ?_, inv.rb_rc⟩
       · intro i w hli
         by_cases hix : i = x
         · subst hix
